@@ -876,6 +876,9 @@ func (m *Machine) callStep(st Step, a *absEval, env *Env, binds map[string]*AVal
 				env.Acts = append(env.Acts, Action{Op: "RESET", Buf: role, Pos: pos})
 				a.bufLen[role] = F
 				return true
+			case "(*strings.Builder).Grow":
+				// capacity only: the content is what it was — provided the amount cannot be negative (Grow panics on that)
+				return len(call.Args) == 1 && nonNegTerm(call.Args[0])
 			case "(*strings.Builder).WriteRune", "(*strings.Builder).WriteByte":
 				if len(call.Args) != 1 {
 					return false
@@ -1049,4 +1052,24 @@ func (m *Machine) callStep(st Step, a *absEval, env *Env, binds map[string]*AVal
 func (m *Machine) isContTerm(t Term) bool {
 	lv, ok := t.(TLoop)
 	return ok && lv.Obj == m.contV
+}
+
+// nonNegTerm: sums and products of lengths, decoded widths and non-negative constants.
+func nonNegTerm(t Term) bool {
+	switch x := t.(type) {
+	case TConst:
+		k, ok := constInt(x)
+		return ok && k >= 0
+	case TBuiltin:
+		return x.Name == "len" || x.Name == "cap"
+	case TBin:
+		return (x.Op == token.ADD || x.Op == token.MUL) && nonNegTerm(x.X) && nonNegTerm(x.Y)
+	case TProj:
+		if call, ok := x.X.(TCall); ok && call.Fun != nil && x.K == 1 && call.Fun.FullName() == "unicode/utf8.DecodeRuneInString" {
+			return true
+		}
+	case TConv:
+		return nonNegTerm(x.X)
+	}
+	return false
 }
